@@ -13,4 +13,6 @@ Extraction "extracted/c13/model.ml"
   AdfWalk.mkfile AdfWalk.read_file AdfWalk.check_file AdfWalk.database_open AdfWalk.read_file_header
   AdfWalk.read_node_header AdfWalk.read_chunk_length AdfWalk.read_sub_node_table AdfWalk.read_dct
   AdfWalk.check_4_child_name AdfWalk.get_node_id AdfWalk.chase_link AdfWalk.read_all_data AdfWalk.get_link_path
-  AdfWalk.walk AdfWalk.cksum AdfWalk.LINK_FUEL AdfWalk.snt_count AdfWalk.dct_count.
+  AdfWalk.walk AdfWalk.cksum AdfWalk.LINK_FUEL AdfWalk.snt_count AdfWalk.dct_count
+  AdfWalk.wit_valid AdfWalk.wit_oobw AdfWalk.wit_oobr AdfWalk.wit_cycle AdfWalk.wit_linkrec AdfWalk.wit_biglink
+  AdfWalk.wit_abort AdfWalk.wit_tagscan AdfWalk.wit_stale.
